@@ -9,7 +9,7 @@ use crate::kinds::{Form, Handle, Kind};
 use crate::prng::derive;
 use crate::run::{self, Obs};
 use crate::workload::{gen_workload, GenCfg, Op, Workload};
-use std::sync::atomic::{AtomicU32, Ordering};
+use std::sync::atomic::{AtomicU32, AtomicUsize, Ordering};
 use std::sync::{Arc, OnceLock};
 
 type Handles = Vec<Option<Arc<dyn Handle>>>;
@@ -24,7 +24,7 @@ fn arg_u64(args: &[String], key: &str, default: u64) -> u64 {
     arg(args, key).map(|v| v.parse().expect(key)).unwrap_or(default)
 }
 
-pub fn scenario(seed: u64, threads: usize, max_operands: usize, max_ops: usize, kinds: &[Kind]) -> Workload {
+pub fn scenario(seed: u64, threads: usize, max_operands: usize, max_ops: usize, kinds: &[Kind]) -> (Workload, usize) {
     let cfg = GenCfg { with_faults: false, max_operands, max_threads: threads, max_ops };
     let mut k = 0;
     let mut w = loop {
@@ -42,36 +42,89 @@ pub fn scenario(seed: u64, threads: usize, max_operands: usize, max_ops: usize, 
             panic!("no scenario found for the requested shape");
         }
     };
-    // every thread starts by parsing the same text: the first use of the
-    // process-global regexes happens concurrently (function name followed by a
-    // character => RE_VAR_NAME_EXACT, variable => RE_VAR_NAME)
-    for t in w.threads.iter_mut() {
-        t.insert(
-            0,
-            Op::Parse {
-                kind: Kind::F64,
-                form: Form::Flat,
-                text: "sin(x)+{y z}*2-cosy".to_string(),
-                compile: true,
-                damaged: false,
-            },
-        );
-        // and make sure every thread evaluates a shared expression at least once
-        if !t.iter().any(|o| matches!(o, Op::Eval { .. })) {
-            t.push(Op::Eval { j: 0, point: 3, mode: 0, delta: 0 });
+    // Prelude: every thread parses the same small texts first, one per operator table in use
+    // (and always the three SimNum tables, which cost little under Miri). The threads meet at a
+    // barrier before each of them, so that the first use of every process-global (the regexes of
+    // the parser and of the literal matchers, and anything keyed by operator table) is a race.
+    // "sin(x)..cosy": function name followed by a character => RE_VAR_NAME_EXACT, variable => RE_VAR_NAME.
+    let mut prelude_kinds: Vec<Kind> = kinds.to_vec();
+    for k in [Kind::Sim, Kind::Sim2, Kind::Sim3] {
+        if !prelude_kinds.contains(&k) {
+            prelude_kinds.push(k);
         }
     }
-    w
+    for t in w.threads.iter_mut() {
+        for (i, k) in prelude_kinds.iter().enumerate() {
+            let text = match k {
+                Kind::F64 | Kind::F32 => "sin(x)+{y z}*2-cosy",
+                Kind::F64b => "dbl(x)<=2**3*pad05(y)",
+                Kind::Val => "1 if x>0 else [1,2]",
+                Kind::Bool => "!p&&true||q",
+                Kind::Sim | Kind::Sim2 => "sq(x)**2<=3*TEN-incy",
+                Kind::Sim3 => "tw(x)&&1<<2|negy",
+            };
+            t.insert(
+                i,
+                Op::Parse { kind: *k, form: if i % 2 == 0 { Form::Flat } else { Form::Deep }, text: text.to_string(), compile: true, damaged: false },
+            );
+        }
+    }
+    let n_prelude = prelude_kinds.len();
+    // a deep and a flat shared expression are always present ...
+    w.shared[0].form = Form::Deep;
+    if w.shared.len() < 2 {
+        let mut s = w.shared[0].clone();
+        s.form = Form::Flat;
+        w.shared.push(s);
+    } else {
+        w.shared[1].form = Form::Flat;
+    }
+    // ... and every thread's first use of the shared expressions is an evaluation of each of
+    // them, so that all threads race on the *first* evaluation (lazily initialised state, if any)
+    let n_shared = w.shared.len();
+    for (tid, t) in w.threads.iter_mut().enumerate() {
+        for j in 0..n_shared {
+            t.insert(n_prelude + j, Op::Eval { j, point: 3 + tid as u32, mode: (tid % 2) as u8, delta: 0 });
+        }
+    }
+    (w, n_prelude)
 }
 
-fn thread_body(tid: usize, w: &Workload, published: &OnceLock<Handles>, late: bool) -> Vec<Obs> {
-    if late && tid == 0 {
-        let _ = published.set(run::parse_shared(w));
+/// Spin barrier (std::sync::Barrier would do; spinning with yield keeps Miri's scheduler busy
+/// and needs no blocking primitive the scheduler could serialise on).
+struct SpinBarrier {
+    n: usize,
+    arrived: Vec<AtomicUsize>,
+}
+impl SpinBarrier {
+    fn wait(&self, round: usize) {
+        self.arrived[round].fetch_add(1, Ordering::AcqRel);
+        while self.arrived[round].load(Ordering::Acquire) < self.n {
+            std::thread::yield_now();
+        }
     }
+}
+
+fn thread_body(
+    tid: usize,
+    w: &Workload,
+    published: &OnceLock<Handles>,
+    late: bool,
+    n_prelude: usize,
+    barrier: Option<&SpinBarrier>,
+) -> Vec<Obs> {
     let mut handles: Option<Handles> = None;
     let mut empty: Handles = Vec::new();
     let mut obs = Vec::new();
-    for op in &w.threads[tid] {
+    for (i, op) in w.threads[tid].iter().enumerate() {
+        if i <= n_prelude {
+            if let Some(b) = barrier {
+                b.wait(i);
+            }
+        }
+        if i == n_prelude && late && tid == 0 {
+            let _ = published.set(run::parse_shared(w));
+        }
         if op.shared_index().is_some() && handles.is_none() {
             loop {
                 if let Some(h) = published.get() {
@@ -98,19 +151,13 @@ pub fn cmd_plain(args: &[String], yield_every: &AtomicU32) -> i32 {
         None => crate::kinds::ALL_KINDS.to_vec(),
         Some(s) => s
             .split(',')
-            .map(|k| match k {
-                "F64" => Kind::F64,
-                "F32" => Kind::F32,
-                "Val" => Kind::Val,
-                "Bool" => Kind::Bool,
-                "Sim" => Kind::Sim,
-                _ => panic!("unknown kind {k}"),
-            })
+            .map(|k| crate::kinds::kind_from_name(k).unwrap_or_else(|| panic!("unknown kind {k}")))
             .collect(),
     };
     yield_every.store(arg_u64(args, "--yield-every", 0) as u32, Ordering::Relaxed);
     std::panic::set_hook(Box::new(|_| {}));
-    let w = Arc::new(scenario(seed, threads, max_operands, max_ops, &kinds));
+    let (w, n_prelude) = scenario(seed, threads, max_operands, max_ops, &kinds);
+    let w = Arc::new(w);
     if arg(args, "--print-workload").is_some() {
         println!("{}", serde_json::to_string(&*w).unwrap());
     }
@@ -120,16 +167,21 @@ pub fn cmd_plain(args: &[String], yield_every: &AtomicU32) -> i32 {
     }
     let obs: Vec<Vec<Obs>> = if sequential {
         (0..w.threads.len())
-            .map(|tid| thread_body(tid, &w, &published, late))
+            .map(|tid| thread_body(tid, &w, &published, late, n_prelude, None))
             .collect()
     } else {
+        let barrier = Arc::new(SpinBarrier {
+            n: w.threads.len(),
+            arrived: (0..n_prelude + 2).map(|_| AtomicUsize::new(0)).collect(),
+        });
         let joins: Vec<_> = (0..w.threads.len())
             .map(|tid| {
                 let w = w.clone();
                 let p = published.clone();
+                let barrier = barrier.clone();
                 std::thread::Builder::new()
                     .stack_size(4 << 20)
-                    .spawn(move || thread_body(tid, &w, &p, late))
+                    .spawn(move || thread_body(tid, &w, &p, late, n_prelude, Some(&barrier)))
                     .unwrap()
             })
             .collect();
